@@ -267,6 +267,25 @@ def check(repo: Repo, rep: Report) -> None:
                        f"value whose own emission has not been serialized yet -- tuples are lost or duplicated, completion tests "
                        f"see a half-updated state")
         rep.require(n_calls >= 2, f"downstream calls reachable from slots in {root.ref} ({n_calls})")
+        # every critical section of the combinator — also those that only protect the winner choice / shared state — is on ONE lock
+        all_locks = set()
+        for g_ in root.walk():
+            if not g_.is_func:
+                continue
+            for n_ in g_.direct_nodes():
+                if isinstance(n_, ast.With):
+                    for it in n_.items:
+                        if u(it.context_expr).endswith("lock"):
+                            all_locks.add(u(it.context_expr))
+            for d_ in getattr(g_.node, "decorator_list", []):
+                if isinstance(d_, ast.Call) and call_name(d_) == "synchronized" and d_.args:
+                    all_locks.add(u(d_.args[0]))
+            for n_ in g_.direct_nodes():
+                if isinstance(n_, ast.Call) and call_name(n_) == "synchronized" and n_.args:
+                    all_locks.add(u(n_.args[0]))
+        rep.ob("K2-one-lock", root, f"critical sections of {root.qual.split('.')[0]}: {sorted(all_locks)}", len(all_locks) <= 1,
+               f"{root.qual} takes different locks in different critical sections ({sorted(all_locks)}): two source threads do not exclude each other "
+               f"(both can be chosen as the winner / both update the shared state)")
         rep.ob("K2-one-lock", root, f"locks: {sorted(locks_used)}", len(locks_used) <= 1,
                f"different slots of {root.qual} serialize on different locks {sorted(locks_used)}: they do not exclude each other")
     # K6: the windows a window operator feeds are part of its downstream: a window's observer is entered by the source thread
